@@ -1,7 +1,83 @@
 import Fatchoy.Drv.TraceConn
+import Fatchoy.Model.ConnStart
+import Std.Data.HashSet
 namespace Fatchoy.C03
+open Fatchoy.ConnStart
 
-/-- C03 driver: trace validation against the connection LTS (see Drv/TraceConn.lean) -/
-def drvMain : IO Unit := Fatchoy.Drv.run ({} : Fatchoy.Conn.DState) Fatchoy.Conn.drvStep
+/-! ### `startup` op: exhaustive exploration of the start-up LTS (Model/ConnStart.lean)
+
+A `startup` run of the harness (hxconn/legs5.go) is one goroutine doing `Go(flag)`, n accepted `SendPacket`s, `Close`,
+then reading the sent counter (k) — and the peer reading to end-of-stream (p packets).  The calling goroutine's actions
+occur in program order; the actions of the two pumps interleave with them in every possible way.  The op asks whether
+SOME execution of the LTS ends with k packets on the wire when Close returns and p when nothing can move any more.
+The order of `wg.Add` is taken from the regenerated fact (`addInside = !Gen.C03.goAddBeforeSpawn`). -/
+
+/-- what the calling goroutine executes, in order -/
+def program (addInside w r : Bool) (n : Nat) : Array Action :=
+  let goW : List Action := if w then (if addInside then [.goSpawnW] else [.goAddW, .goSpawnW]) else [.goSkipW]
+  let goR : List Action := if r then (if addInside then [.goSpawnR] else [.goAddR, .goSpawnR]) else [.goSkipR]
+  let sends : List Action := (List.range n).map (fun i => Action.send (200 + i))
+  let close : List Action := [.closeFlip, .closeDone, .closeWait, .closeShutW, .closeQueue, .closeReturn]
+  (Action.goCall w r :: (goW ++ goR ++ sends ++ close)).toArray
+
+def pumpActions : List Action :=
+  [.wStart, .rStart, .wRecv, .wSeeDone, .wSeeClosed, .wFlush, .wFlushEnd, .wWgDone, .rSeeDone, .rWgDone]
+
+structure Node where
+  s : State
+  pc : Nat                 -- index into the program
+  k : Option Nat           -- packets on the wire when `closeReturn` was executed
+  deriving BEq, Hashable
+
+/-- depth-first exploration of all interleavings; result: the set of (k, p) at the states where nothing is enabled
+  (a state where the program is stuck before its end — Close blocked for ever — yields no pair) -/
+def explore (cfg : Cfg) (prog : Array Action) : Nat → List Node → Std.HashSet Node → List (Nat × Nat) →
+    Option (List (Nat × Nat))
+  | 0, _, _, _ => none
+  | _ + 1, [], _, res => some res
+  | fuel + 1, nd :: stack, seen, res =>
+    if seen.contains nd then explore cfg prog fuel stack seen res
+    else
+      let seen := seen.insert nd
+      let fromProg : List Node :=
+        match prog[nd.pc]? with
+        | some a => match step cfg nd.s a with
+          | some s' => [{ s := s', pc := nd.pc + 1, k := if a = .closeReturn then some s'.wire.length else nd.k }]
+          | none => []
+        | none => []
+      let fromPumps : List Node :=
+        pumpActions.filterMap (fun a => (step cfg nd.s a).map (fun s' => { nd with s := s' }))
+      let next := fromProg ++ fromPumps
+      let res := match next, nd.k with
+        | [], some k => if res.contains (k, nd.s.wire.length) then res else (k, nd.s.wire.length) :: res
+        | _, _ => res
+      explore cfg prog fuel (next ++ stack) seen res
+
+def startupOutcomes (w r : Bool) (n cap : Nat) : Option (List (Nat × Nat)) :=
+  let cfg : Cfg := ⟨!Gen.C03.goAddBeforeSpawn, cap⟩
+  explore cfg (program cfg.addInside w r n) 4000000 [{ s := init, pc := 0, k := none }] {} []
+
+/-- `startup w=_ r=_ n=_ cap=_ k=_ [p=_]` -> accept | reject | budget | bad-op  (without `p`: any p) -/
+def startupVerdict (ws : List String) : String :=
+  match Drv.kvNat? ws "w", Drv.kvNat? ws "r", Drv.kvNat? ws "n", Drv.kvNat? ws "cap", Drv.kvNat? ws "k" with
+  | some w, some r, some n, some cap, some k =>
+    match startupOutcomes (w != 0) (r != 0) n cap with
+    | some res =>
+      let ok := match Drv.kv? ws "p" with
+        | none => res.any (fun kp => kp.1 == k)
+        | some ps => match Drv.nat? ps with
+          | some p => res.contains (k, p)
+          | none => false
+      if ok then "accept" else "reject"
+    | none => "budget"
+  | _, _, _, _, _ => "bad-op"
+
+def drvStep (d : Fatchoy.Conn.DState) (line : String) : Fatchoy.Conn.DState × String :=
+  match Drv.words line with
+  | "startup" :: ws => (d, startupVerdict ws)
+  | _ => Fatchoy.Conn.drvStep d line
+
+/-- C03 driver: trace validation against the connection LTS (see Drv/TraceConn.lean) + the `startup` op -/
+def drvMain : IO Unit := Fatchoy.Drv.run ({} : Fatchoy.Conn.DState) drvStep
 
 end Fatchoy.C03
